@@ -55,8 +55,8 @@ def run(ctx):
         if rec != "OrcParser" and not fields:
             raise AnalysisBroken("no owning field computed for %s" % rec)
         for suf, srcs in sorted(fields.items()):
-            if rec == "OrcParser" and suf in ("program", "error_program"):
-                continue
+            if rec == "OrcParser" and (suf == "program" or all(how.startswith("transfer from OrcParser.program") for _f, _n, how in srcs)):
+                continue            # the current program (owned by the programs vector) and fields that only ever alias it
             ok = (rec, suf) in rel
             moved = False
             if not ok and rec == "OrcParser":
@@ -240,6 +240,66 @@ def run(ctx):
                       (f.name, var, c.name, describe_path(f, paths[0]) if paths else ""), line=c.line)
     if n3b < 10:
         raise AnalysisBroken("only %d local allocations found in the library" % n3b)
+    # ... and a fresh block passed straight into a callee that does not take ownership of that argument (it only copies or
+    # reads it) is lost at once: orc_program_set_name (p, make_string ()) with set_name doing strdup
+    COPYING = NON_OWNING | {"strdup", "orc_strdup", "_strndup", "strndup", "memcmp", "atoi", "strtoll", "_strtoll"}
+
+    def param_borrowed(g, i, depth=0):
+        """True if parameter i of g is only read: never freed, stored, returned or handed to a callee that might keep it."""
+        if g.body is None or i >= len(g.params):
+            return False
+        nm = g.params[i]["name"]
+        for x in g.walk():
+            if x.k == "DeclRefExpr" and x.name == nm and x.get("dk") == "param":
+                par = x.parent
+                while par is not None and par.k in ("ParenExpr", "CStyleCastExpr", "ImplicitCastExpr"):
+                    par = par.parent
+                if par is None:
+                    return False
+                if par.k == "CallExpr":
+                    if par.name in COPYING:
+                        continue
+                    if par.name in ("free", "orc_free"):
+                        return False
+                    try:
+                        h = db.func(par.name) if par.name else None
+                    except AnalysisBroken:
+                        h = None
+                    j = next((k for k, a in enumerate(par.args()) if any(y is x for y in a.walk())), None)
+                    if h is not None and j is not None and depth < 2 and param_borrowed(h, j, depth + 1):
+                        continue
+                    return False
+                if par.k == "BinaryOperator" and par.op in ("==", "!=", "&&", "||", "<", ">"):
+                    continue
+                if par.k in ("UnaryOperator",) and par.op in ("!", "*"):
+                    continue
+                if par.k in ("IfStmt", "ConditionalOperator", "ArraySubscriptExpr"):
+                    continue
+                return False            # assigned somewhere, returned, ...
+        return True
+    nd = 0
+    for f in funcs:
+        for c in f.calls():
+            if c.name not in ALLOCS:
+                continue
+            par = c.parent
+            while par is not None and par.k in ("ParenExpr", "CStyleCastExpr", "ImplicitCastExpr"):
+                par = par.parent
+            if par is None or par.k != "CallExpr" or par is c or not par.name:
+                continue
+            try:
+                g = db.func(par.name)
+            except AnalysisBroken:
+                continue
+            j = next((k for k, a in enumerate(par.args()) if any(y is c for y in a.walk())), None)
+            if j is None:
+                continue
+            nd += 1
+            rep.check(not param_borrowed(g, j), "D3b-LOCAL-ALLOC", where(f), "%s(%s())" % (par.name, c.name),
+                      "%s takes over the block %s allocates" % (par.name, c.name),
+                      "%s passes the block returned by %s() straight to %s, which only reads or copies that argument: nothing can free the block any more "
+                      "(one leak per call)" % (f.name, c.name, par.name), line=c.line)
+    rep.extra["allocations_passed_directly"] = nd
 
     # ---- D4 setters -------------------------------------------------------------
     n4 = 0
